@@ -6,8 +6,13 @@ from .common import d_str, d_bool, d_opt, d_list
 LEVEL = 'proof'
 RULE = ('strings are drawn per character from weighted classes (plain, ok-punctuation, blank, single quote, sh-special, '
         'Make-special, backslash, non-ASCII word / non-word / space), lengths 0..10, plus a corpus of corner cases; '
-        'a case is non-trivial when it contains at least one character outside [A-Za-z0-9_] and distinct by its exact text')
-TRUSTED = ('R model Shell/Sh.v validated against /bin/dash on this run',
+        'a case is non-trivial when it contains at least one character outside [A-Za-z0-9_] and distinct by its exact text; '
+        'environment channel: names from a list of identifiers (and, for the tie only, of non-identifiers), values from a corpus '
+        'rich in ~ : = plus random strings over ~ : = / a b . plus the general generator; sh lines for the R validation from a '
+        'corpus of probed cases, the real writer output (also mutated) and random assemblies of tilde-relevant atoms')
+TRUSTED = ('R model Shell/Sh.v validated against /bin/dash on this run (word splitting; second layer: assignment words, export, tilde '
+           'expansion, environment along && - with a private HOME; a process in an && list is assumed to exit 0; login-name tilde '
+           'prefixes, OPTIND and shell builtins as command words are outside the model fragment)',
            'R models Make/MakeRead.v and Make/MakeCall.v (define bodies, $(call ...) argument splitting, binding, body expansion, '
            'recipe lines) validated against /usr/bin/make on this run; call recipes whose command line ends in a backslash or lets $$ '
            'reach sh are outside the validated fragment',
@@ -956,9 +961,12 @@ def gen_env(rng, rep=None, odd=0.0, maxn=3):
 def stage_w_env(rep, rng, n):
     """W tie of the environment half of shell/posix.py: join_lines, local_env, global_env (structure of the returned
     shell_list, bit by bit) and the sh text of the items (quote of every item, joined with blanks)."""
+    from io import StringIO
     from bfg9000.shell import posix as pshell
-    uw, _ = gen.uni_tables()
+    from bfg9000.backends.make.syntax import Makefile
+    uw, us = gen.uni_tables()
     calls, impl = [], []
+    mk = Makefile('build.bfg')
 
     def gen_line():
         if rng.random() < 0.2:
@@ -971,6 +979,15 @@ def stage_w_env(rep, rng, n):
         got = pshell.global_env(env, lines if (lines or rng.random() < 0.5) else None)
         calls.append(('posix.global_env', [pairs, [enc_line(l) for l in lines]])); impl.append([canon_item(x) for x in got])
         calls.append(('posix.sh_text', [uw, [canon_item(x) for x in got]])); impl.append(' '.join(pshell.quote(x) for x in got))
+        # the recipe text the real Makefile writer makes of the items (the W function of C01_env_through_make)
+        w = mk.writer(StringIO())
+        try:
+            w.write_shell(got)
+            iv = w.stream.getvalue()
+        except ValueError:
+            iv = None
+        calls.append(('make.write_each', [uw, us, [[[2, b[1]] if b[0] == 0 else [1, b[1]] for b in canon_item(x)] for x in got], 3]))
+        impl.append(iv)
         line = gen_line()
         got = pshell.local_env(env, line)
         calls.append(('posix.local_env', [pairs, enc_line(line)])); impl.append([canon_item(x) for x in got])
@@ -981,7 +998,8 @@ def stage_w_env(rep, rng, n):
         rep.count('wenv:nenv=%d' % len(env))
     rep.sample({'stage': 'W:env', 'call': calls[0][0], 'arg': calls[0][1]})
     return common.compare_model(rep, 'W:posix env', calls, impl,
-                                lambda name, r: d_str(r) if name == 'posix.sh_text' else d_items(r))
+                                lambda name, r: d_str(r) if name == 'posix.sh_text' else
+                                d_opt(d_str, r) if name == 'make.write_each' else d_items(r))
 
 
 def d_run(r):
@@ -1028,6 +1046,9 @@ R_ENV_ATOMS = ['~', '~', ':', '=', '/', 'a', 'b', "'", "''", "'a'", "'~'", "':'"
                'rec ', 'rec2 ', 'PRE', "'a b'", '.', '@', '-']
 
 
+R_ENV_VAL_ATOMS = ['~', '~', '~', ':', ':', '/', '/', '=', 'a', 'b', '.', "'b'", "''", "'~'", '\\~', "':'", "'/'", "'='", "\\'", "'a b'", ',']
+
+
 def stage_r_env(rep, rng, n):
     """R validation of the environment layer of Sh.v (sh_run: assignment words, export, tilde expansion, && with the
     environment carried along) against the real dash with a private HOME. Lines: a corpus of the probed cases, lines written
@@ -1042,7 +1063,26 @@ def stage_r_env(rep, rng, n):
         lines = list(R_ENV_CORPUS)
         for _ in range(n):
             k = rng.random()
-            if k < 0.45:
+            if k < 0.35:
+                # structured: assignment words / export arguments / ordinary words built from the atoms tilde expansion looks at
+                def val():
+                    return ''.join(rng.choice(R_ENV_VAL_ATOMS) for _ in range(rng.randint(0, 5)))
+
+                def asg():
+                    return rng.choice(['X', 'Y', 'HOME', 'A_1', 'PRE']) + '=' + val()
+                parts = []
+                for _ in range(rng.randint(1, 3)):
+                    f = rng.random()
+                    if f < 0.35:
+                        parts.append('export ' + ' '.join(asg() if rng.random() < 0.85 else rng.choice(['PRE', 'X', val()])
+                                                            for _ in range(rng.randint(1, 2))))
+                    elif f < 0.45:
+                        parts.append(' '.join(asg() for _ in range(rng.randint(1, 2))))
+                    else:
+                        parts.append(' '.join([asg() for _ in range(rng.randint(0, 2))] + [rng.choice(['rec', 'rec2'])] +
+                                              [val() for _ in range(rng.randint(0, 2))]))
+                line = ' && '.join(parts)
+            elif k < 0.45:
                 line = ''.join(rng.choice(R_ENV_ATOMS) for _ in range(rng.randint(2, 9)))
             else:
                 env = {rng.choice(['X', 'Y', 'HOME', 'A_1', 'PRE']): env_value(rng) for _ in range(rng.randint(1, 2))}
@@ -1091,6 +1131,34 @@ def stage_r_env(rep, rng, n):
     finally:
         d.close()
     rep.stage('R:dash environment', lines=len(lines), accepted_by_model=acc, disagreements=bad)
+
+
+def stage_probe_env_names(rep):
+    """Candidate finding C01-env-name-not-identifier (the complement of the guard name_ok of C01_env_global/local, witness
+    C01_env_name_refuted): environment names that are not sh identifiers (and OPTIND with a non-number) run through the real
+    writer, the real make and /bin/sh. Recorded in the evidence, never reported as a violation here (status: candidate)."""
+    from io import StringIO
+    from bfg9000.backends.make.syntax import Makefile
+    from bfg9000.shell import posix as pshell
+    res = {}
+    for name, value in [('1A', 'x'), ('A.B', 'x'), ('A-B', 'x'), ('A B', 'x'), ('é', 'x'), ('OPTIND', 'abc'), ('OPTIND', '3'), ('GOOD_1', 'x')]:
+        for form in ('global_env', 'local_env'):
+            mk = Makefile('build.bfg')
+            cmd = [shtools.ARGVREC, 'x y']
+            envd = {name: value}
+            mk.rule('all', recipe=[pshell.global_env(envd, [cmd]) if form == 'global_env' else pshell.local_env(envd, cmd)], phony=True)
+            o = StringIO()
+            mk.write(o)
+            rc, recs, out = shtools.make_run(o.getvalue(), 'all', envnames=(name,), extra_env={'HOME': PRIVATE_HOME})
+            ok = rc == 0 and len(recs) == 1 and recs[0]['argv'] == ['x y'] and recs[0]['env'].get(name) == value
+            res['%s=%s %s' % (name, value, form)] = 'delivered' if ok else 'NOT delivered (make exit %d: %s)' % (
+                rc, out.strip().split('\n')[-1][-80:] if out.strip() else '')
+            rep.case('envname:%s:%s' % (name, form), True)
+    rep.stage('probe:environment names outside the guard (candidate finding)', **res)
+    if res.get('GOOD_1=x global_env') != 'delivered' or res.get('GOOD_1=x local_env') != 'delivered' or \
+            res.get('OPTIND=3 global_env') != 'delivered':
+        rep.fail('environment-name probe: the control case is not delivered: %r' % (res,), {'obligation': 'probe:env names', 'result': res},
+                 found_input=False)
 
 
 def stage_t_env(rep, rng, n):
@@ -1160,6 +1228,8 @@ def run(rep):
     dis += stage_w_make(rep, rng, n // 2)
     dis += stage_w_call(rep, rng, n // 3)
     dis += stage_w_nested(rep, rng, n // 3)
+    dis += stage_w_env(rep, rng, n // 3)
+    stage_r_env(rep, rng, n)
     stage_r_make(rep, rng, 300 if thorough else 60)
     stage_r_call(rep, rng, 600 if thorough else 150)
     found = stage_oracle_quote(rep, rng, n // 2 * (10 if dis else 1))
@@ -1167,6 +1237,8 @@ def run(rep):
     found += stage_oracle_call(rep, rng, (400 if thorough else 70) * (5 if dis else 1))
     found += stage_oracle_nested(rep, rng, (300 if thorough else 50) * (5 if dis else 1))
     found += stage_oracle_env(rep, rng, (300 if thorough else 90) * (5 if dis else 1))
+    found += stage_t_env(rep, rng, n * (5 if dis else 1))
+    stage_probe_env_names(rep)
     found += stage_oracle_cmdword(rep)
     from . import c06
     for i in range(12 if thorough else 2):
